@@ -13,6 +13,7 @@ def rules(ctx, tier):
         lambda: pathops.rule_keyorder(ctx),
         lambda: pathops.rule_nopath(ctx),
         lambda: pathops.rule_reformat(ctx),
+        lambda: pathops.rule_pathfirst(ctx),
         lambda: config.rule_root_idem(ctx),
         lambda: config.rule_mapinj(ctx),
         lambda: config.rule_keytypes(ctx),
